@@ -97,6 +97,7 @@ type World struct {
 	Sim     *verifsync.Sim
 	turbo   bool // a turbo refine (VImportCommit) may still be running
 	qhist   map[string]*qHist
+	openedAt int64 // simulated time of the last engine.Open
 
 	evMu   sync.Mutex
 	Events []EvRec // disk events of the current op window
